@@ -5,18 +5,20 @@ import json, os, re, subprocess, sys
 VERIF = os.path.dirname(os.path.dirname(os.path.abspath(__file__)))
 os.chdir(VERIF)
 ids = sys.argv[1:] or sorted(os.listdir("seeded"))
-if subprocess.run("git -C /repo status --porcelain --untracked-files=no", shell=True, capture_output=True, text=True).stdout.strip():
-    sys.exit("/repo dirty")
+REPO = os.environ.get("PS_REPO", "/repo")     # a snapshot of /repo may be patched instead (vp run --with-repo)
+SEED = os.environ.get("VERIF_SEED", "0")      # with a seed other than 0 the result goes to meta["detected_by_seed<k>"]
+if subprocess.run(f"git -C {REPO} status --porcelain --untracked-files=no", shell=True, capture_output=True, text=True).stdout.strip():
+    sys.exit(f"{REPO} dirty")
 for sid in ids:
     prop = sid.split("-")[0]
     patch = os.path.join(VERIF, "seeded", sid, "patch.diff")
-    if subprocess.run(["git", "-C", "/repo", "apply", patch]).returncode != 0:
+    if subprocess.run(["git", "-C", REPO, "apply", patch]).returncode != 0:
         print(sid, "patch does not apply"); continue
     try:
         p = subprocess.run(["./check", prop, "--tier", "quick"], capture_output=True, text=True, timeout=1500)
         out = p.stdout + p.stderr
     finally:
-        subprocess.run("git -C /repo checkout -- .", shell=True)
+        subprocess.run(f"git -C {REPO} checkout -- .", shell=True)
     viol = re.findall(r"^VIOLATION property=(\S+) replay=(\S+)(.*)$", out, re.M)
     det = []
     for pr, rp, rest in viol[:3]:
@@ -29,7 +31,10 @@ for sid in ids:
             det.append({"check": pr, "exit": p.returncode, "channel": "?", "what": str(e)})
     mp = os.path.join("seeded", sid, "meta.json")
     meta = json.load(open(mp))
-    meta["detected_by"] = det if det else None
-    meta["detection_run"] = {"cmd": f"./check {prop} --tier quick", "exit": p.returncode}
+    if SEED == "0":
+        meta["detected_by"] = det if det else None
+        meta["detection_run"] = {"cmd": f"./check {prop} --tier quick", "exit": p.returncode}
+    else:
+        meta["detected_by_seed" + SEED] = [{"channel": d.get("channel"), "failing_input_found": d.get("failing_input_found")} for d in det] or None
     json.dump(meta, open(mp, "w"), indent=1)
     print(sid, "->", p.returncode, [(d["channel"], d["failing_input_found"]) for d in det if "failing_input_found" in d], flush=True)
